@@ -696,6 +696,14 @@ class TaskDispatcher(object):
                         self.orphaned_response_retention_ms
                     )
                     self.orphaned_responses[correlation_id] = (message, timeout_id)
+                    """
+                    The redelivered Task message may already have been
+                    dispatched without its request becoming pending yet (a
+                    retried Task waits for its retry delay first), so no
+                    further State Transition Event need arrive to trigger
+                    the periodic check of orphaned responses.
+                    """
+                    self.schedule_orphaned_response_handler()
             else:
                 """
                 If the uptime is more than the retention period for orphaned
